@@ -1,17 +1,24 @@
 """C17 - epoch timers tick once per elapsed period; hook failures stay contained.
 Spec: spec/Epochs.tla.  Legs: exhaustive TLC (MCEpochs), spec->impl replay of one
 behaviour per distinct idle state (GenEpochs), impl->spec validation of recorded
-random schedules (TraceEpochs)."""
+random schedules (TraceEpochs).  Design level, unbounded: Apalache inductive invariant + TLAPS proof of the timer
+arithmetic (spec/apa/EpochsInd.tla, EpochsProof.tla; apalache_leg)."""
 import json, os, time
 import vlib
+import checks.apalache as apalache
 from vlib import Infra, Violation, log
 
 TRUST = ("Trusted: TLC evaluator, Json/IOUtils community modules, harness projection functions "
          "(shared by both binding directions), go -overlay.")
 MANIFEST = {
         "engine": "tlc+go-harness", "design_ref": "DESIGN.md section 4 (C17), Appendix A",
-        "technique": "TLA+ spec Epochs.tla; TLC exhaustive MC; TLC-generated behaviours replayed on the real keeper; recorded schedules trace-validated by TLC",
-        "text": "Epochs.tla models BeginBlocker as StartBlock/Call/EndBlock/Abort. TLC checks grid, once-per-block, tick-exactly-when-due, signal order and containment exhaustively on a bounded model (8.6e5 states quick); one behaviour per distinct idle state of a second bounded model (2.3e4 quick, 1e5 thorough) is executed on the real x/epochs keeper with scripted subscribers and compared after every block; random block-time/fault schedules recorded from the real keeper (timers 1-4, units ns..h, ok/err/panic/out-of-gas with partial writes) are validated line by line by TLC with every property as invariant.",
+        "technique": "TLA+ spec Epochs.tla; TLC exhaustive MC; TLC-generated behaviours replayed on the real keeper; recorded schedules trace-validated by TLC; "
+                     "Apalache inductive invariant + TLAPS proof of the timer arithmetic over unbounded integers (design level)",
+        "text": "Epochs.tla models BeginBlocker as StartBlock/Call/EndBlock/Abort. TLC checks grid, once-per-block, tick-exactly-when-due, signal order and containment exhaustively on a bounded model (8.6e5 states quick); one behaviour per distinct idle state of a second bounded model (2.3e4 quick, 1e5 thorough) is executed on the real x/epochs keeper with scripted subscribers and compared after every block; random block-time/fault schedules recorded from the real keeper (timers 1-4, units ns..h, ok/err/panic/out-of-gas with partial writes) are validated line by line by TLC with every property as invariant. Design level, unbounded parameters: for one timer with any start time, any "
+                "duration >= 1 and any non-decreasing block times, grid, nothing-before-start, at most one tick per block and exactly when due, and the signal "
+                "count/order relation (ends = starts - 1, every signal in its place) are an inductive invariant of the typed sub-model spec/apa/EpochsInd.tla, "
+                "checked by Apalache (initiation, consecution, implication, two broken variants that must fail) and proved by TLAPS (EpochsProof.tla); subscriber "
+                "faults are outside that sub-model and the binding to the Go code remains the TLC trace/replay legs.",
         "note": TRUST + " Subscribers are scripted EpochHooks; block atomicity emulated like baseapp (cache context + recover).",
     }
 BUILD = [("./lite/epochs/", "epochs")]
@@ -30,9 +37,27 @@ CHECK_DEADLOCK FALSE
 PROPS = "INVARIANTS Grid NotBeforeStart SignalOrder\nPROPERTIES AtMostOneTick TickExactlyWhenDue AbortRestores NobodySkipped"
 
 
+def apalache_leg(ctx, cov):
+    """Design level, UNBOUNDED (any start, any duration >= 1, any non-decreasing block times): IndInv of
+    spec/apa/EpochsInd.tla is inductive and implies the timing part of C17 (Apalache), and the same theorem is
+    proved by TLAPS (EpochsProof.tla).  Never a verdict about the code: unexpected outcomes are Infra."""
+    if apalache.skipped():
+        log("VERIF_NO_APALACHE: unbounded design-level leg skipped")
+        cov["apalache"] = {"skipped": "VERIF_NO_APALACHE"}
+        return
+    ctx.leg = "apalache"
+    legs = apalache.standard_legs(step=None, broken=[
+        ("NextBrokenGe", "IndInv", "tick when block time >= current start + duration (>= instead of >): TickExactlyWhenDue must break"),
+        ("NextBrokenDrift", "IndInv", "the new epoch starts at the block time instead of current start + duration: Grid must break")])
+    cov.update(apalache.run("C17", "EpochsInd.tla", legs, tlaps="EpochsProof.tla",
+                            theorems=["Init => IndInv", "IndInv /\\ [Next]_vars => IndInv'", "Spec => []Property"]))
+
+
 def run(ctx):
     q = ctx.quick
     cov = {"samples": []}
+    # 0. design, unbounded parameters: inductive invariant of the timer arithmetic (Apalache + TLAPS)
+    apalache_leg(ctx, cov)
     # 1. design: exhaustive model checking of the bounded spec
     ctx.leg = "mc"
     mcs = [("CfgA", "0, 1, 2, 5", 9, 6)] if q else [("CfgA", "0, 1, 2, 5", 11, 7), ("CfgC", "0, 1, 2, 3", 7, 7)]
@@ -115,6 +140,8 @@ def run(ctx):
                 "checker_cmd": "bin/check C17 --tier " + ctx.tier})
     vlib.write_evidence("C17", ctx.tier, ctx.seed, "model_checking", cov, time.time() - ctx.t0,
                         ["TLC evaluator; Json/IOUtils community modules",
+                         "Apalache + Z3 / tlapm + its backends for the unbounded design-level leg (a statement about the typed sub-model "
+                         "spec/apa/EpochsInd.tla, one timer, subscribers abstracted; it never replaces a TLC leg)",
                          "harness projection of EpochInfo / subscriber stores (shared by both binding directions)",
                          "subscribers are scripted EpochHooks writing to their own KV store through the ctx they receive",
                          "block atomicity is emulated as baseapp does it: cache context written unless the begin blocker panics"])
